@@ -12,7 +12,7 @@ cat > /tmp/wt/prompt_$name.txt <<P
 You are helping to test a code-analysis tool for false alarms. The project is Borno, a small tree-walking interpreter written in Go (lexer, recursive-descent parser, evaluator) for a dynamically typed language with Bangla keywords. You have your own scratch git worktree of it at /tmp/wt/$name (work ONLY there; do not touch /repo or /verif, and do not read anything under /verif).
 
 YOUR TASK: make THREE separate, small, strictly BEHAVIOUR-PRESERVING edits to the Go source, of the kind a maintainer does while tidying up, in this area: $area
-Each edit must leave every observable behaviour of the interpreter exactly as it is for EVERY input (same stdout, stderr, exit status, same order of evaluation and side effects, same tokens/trees/values, same error messages and line numbers, same allocation/aliasing behaviour of Borno arrays and objects). Typical edits: rename local variables; reorder two statements that are independent; introduce or remove an intermediate local; invert an if condition and swap its branches; turn an if/else-if chain into a switch (or back); replace an index loop by an equivalent range loop (or back) where nothing else changes; hoist a repeated pure sub-expression into a local; add an early return that is equivalent; extract a few lines into a small helper function, or inline a tiny helper at its single call site; replace \`x = x + 1\` by \`x++\`; add comments/blank lines. Do NOT change exported names, struct fields, messages, or semantics; do not "fix" anything; do not touch tests or add build tags. Each edit 3-25 changed lines. Vary the kinds of edit across the three.
+Each edit must leave every observable behaviour of the interpreter exactly as it is for EVERY input (same stdout, stderr, exit status, same order of evaluation and side effects, same tokens/trees/values, same error messages and line numbers, same allocation/aliasing behaviour of Borno arrays and objects). Typical edits: rename local variables; reorder two statements that are independent; introduce or remove an intermediate local; invert an if condition and swap its branches; turn an if/else-if chain into a switch (or back); replace an index loop by an equivalent range loop (or back) where nothing else changes; hoist a repeated pure sub-expression into a local; add an early return that is equivalent; extract a few lines into a small helper function, or inline a tiny helper at its single call site; replace \`x = x + 1\` by \`x++\`; add comments/blank lines. Do NOT change exported names, struct fields, messages, or semantics; do not "fix" anything; do not touch tests or add build tags. Each edit 3-25 changed lines. Vary the kinds of edit across the three. In THIS round, exactly one of the three edits must be a pure rename (a local variable that is updated inside a loop, a function parameter, or a method receiver; fixing a misspelt identifier counts), one must restructure control flow without changing it (early return/continue, merged or split conditions, loop form), and one is free.
 
 Make the three edits one after another, each as its own patch against the ORIGINAL code (not stacked): after finishing an edit, save its diff and revert (\`git -C /tmp/wt/$name checkout -- .\`) before starting the next.
 For each edit k in 1..3:
